@@ -13,6 +13,7 @@ import Nlmodel.Proofs.Lemmas.ResolveHeap
 import Nlmodel.Proofs.Lemmas.ResolveFn
 import Nlmodel.Proofs.Lemmas.ParsedFloats
 import Nlmodel.Proofs.Lemmas.Resolve6Top
+import Nlmodel.Proofs.Lemmas.SyntacticOnly
 namespace Nl
 namespace C01
 
@@ -369,6 +370,21 @@ theorem C01_heap_and_calls_eval_text (cc : CharClass) (src : Text) (ast : Block)
     | .fault _ => False
     | _ => True :=
   Sim6.eval_text6_checked cc src ast r bc hp hs hc F
+
+/-- THE SAME WITH A PURELY SYNTACTIC HYPOTHESIS ON THE SHAPE OF THE PARSED TREE (`Sim6.src6TopNF`: `src6Top` without the test on
+    float literals, which `C01_parsed_float_literals_are_plain` makes redundant for parsed programs): for every text that
+    parses to a tree with no nested function literal, no `stop`/`volgende` under a pending operand or outside a loop, no
+    `antwoord` outside a function — `eval` answers what the definitional semantics answers, or stops at the machine's
+    stack/frame limit -/
+theorem C01_heap_and_calls_eval_text_syntactic (cc : CharClass) (src : Text) (ast : Block) (r : RBlock) (bc : Bytecode)
+    (hp : parse cc src = .ok ast) (hs : Sim6.src6TopNF ast = true) (hc : compileProgram ast = .ok (r, bc)) (F : Nat) :
+    (∃ n out, ∀ k, evalText cc (n + k) src = .error .index out) ∨
+    match specText cc F src with
+    | .value t out => ∃ n, ∀ k, evalText cc (n + k) src = .value t out
+    | .error e out => ∃ n, ∀ k, evalText cc (n + k) src = .error e out
+    | .fault _ => False
+    | _ => True :=
+  Sim6.eval_text6_syntactic cc src ast r bc hp hs hc F
 
 /-- non-vacuity: `functie f(n) { als n < 1 { antwoord [] }; stel a = f(n - 1); [n, a, "x", 1.5] }; print(f(3)); f(2)`
     (recursion, a returned array nested in a new one, a string, a float, `print`) is in the syntactic fragment -/
